@@ -11,7 +11,7 @@ open BP Element
 
 /-! ### the inserted blocks evaluate to zeros -/
 
-theorem eval_wait_block (args : List Val) (sr : Rat) (n : Nat) :
+theorem g4_eval_wait_block (args : List Val) (sr : Rat) (n : Nat) :
     (Blk.call Fn.waitCallable args sr n).eval? = some (List.replicate n 0) := by
   have hs : Fn.waitCallable.shape = .zeros := rfl
   have : (Blk.call Fn.waitCallable args sr n).eval? =
@@ -24,7 +24,7 @@ theorem eval_wait_block (args : List Val) (sr : Rat) (n : Nat) :
   · intro i h1 h2
     simp [Gen.waituntil]
 
-theorem eval_zero_ramp_block (sr : Rat) (n : Nat) :
+theorem g4_eval_zero_ramp_block (sr : Rat) (n : Nat) :
     (Blk.call Fn.rampFn [.num 0, .num 0] sr n).eval? = some (List.replicate n 0) := by
   have hs : Fn.rampFn.shape = .ramp := rfl
   simp only [Blk.eval?, hs]
@@ -36,7 +36,7 @@ theorem eval_zero_ramp_block (sr : Rat) (n : Nat) :
 
 /-! ### `mapM` in `Option` -/
 
-theorem mapM_option_congr {α β : Type} (f : α → Option β) (l l' : List α) (h : l.map f = l'.map f) :
+theorem g4_mapM_option_congr {α β : Type} (f : α → Option β) (l l' : List α) (h : l.map f = l'.map f) :
     l.mapM f = l'.mapM f := by
   induction l generalizing l' with
   | nil => cases l' with
@@ -52,7 +52,7 @@ theorem mapM_option_congr {α β : Type} (f : α → Option β) (l l' : List α)
 /-- the delayed original blocks evaluate to what the original blocks evaluate to -/
 theorem eval_shifted_blocks (sr dl : Rat) (segs : List Seg) (ns : List Nat) :
     (mkBlocks sr (segs.map (shiftWait dl)) ns).mapM Blk.eval? = (mkBlocks sr segs ns).mapM Blk.eval? := by
-  apply mapM_option_congr
+  apply g4_mapM_option_congr
   have := congrArg (List.map Blk.eval?) (mkBlocks_shift_norm sr dl segs ns)
   simp only [List.map_map] at this
   have hn : Blk.eval? ∘ Blk.norm = Blk.eval? := by funext b; exact Blk.norm_eval b
@@ -60,7 +60,7 @@ theorem eval_shifted_blocks (sr dl : Rat) (segs : List Seg) (ns : List Nat) :
 
 /-! ### segment starts and segment-bound markers under concatenation -/
 
-theorem starts_append (a c : List Nat) (acc : Nat) : starts (a ++ c) acc = starts a acc ++ starts c (acc + sumN a) := by
+theorem g4_starts_append (a c : List Nat) (acc : Nat) : starts (a ++ c) acc = starts a acc ++ starts c (acc + sumN a) := by
   induction a generalizing acc with
   | nil => simp [starts, sumN]
   | cons n ns ih =>
@@ -68,14 +68,14 @@ theorem starts_append (a c : List Nat) (acc : Nat) : starts (a ++ c) acc = start
     congr 2
     omega
 
-theorem starts_shift (ns : List Nat) (acc D : Nat) : starts ns (acc + D) = (starts ns acc).map (· + D) := by
+theorem g4_starts_shift (ns : List Nat) (acc D : Nat) : starts ns (acc + D) = (starts ns acc).map (· + D) := by
   induction ns generalizing acc with
   | nil => rfl
   | cons n ns ih =>
     simp only [starts, List.map_cons, List.cons.injEq, true_and]
     rw [show acc + D + n = acc + n + D by omega, ih]
 
-theorem segMarks_append (sr : Rat) (sel : Seg → Mark) (a c : List Seg) (sa sc : List Nat) (h : sa.length = a.length) :
+theorem g4_segMarks_append (sr : Rat) (sel : Seg → Mark) (a c : List Seg) (sa sc : List Nat) (h : sa.length = a.length) :
     segMarks sr sel (a ++ c) (sa ++ sc) = segMarks sr sel a sa ++ segMarks sr sel c sc := by
   induction a generalizing sa with
   | nil =>
@@ -93,7 +93,7 @@ theorem segMarks_append (sr : Rat) (sel : Seg → Mark) (a c : List Seg) (sa sc 
 
 /-- moving a time on the axis `D` whole samples later moves its nearest sample by `D`, and a longer
     axis does not matter as long as the time lay on the original one -/
-theorem nearestIdx_add (N M D : Nat) (x : Rat) (h0 : 0 ≤ x) (hx : x ≤ (N : Rat) - 1) (hD : D ≤ M) :
+theorem g4_nearestIdx_add (N M D : Nat) (x : Rat) (h0 : 0 ≤ x) (hx : x ≤ (N : Rat) - 1) (hD : D ≤ M) :
     nearestIdx (N + M) (x + D) = nearestIdx N x + D := by
   have hN : 1 ≤ N := by
     have : (0 : Rat) ≤ (N : Rat) - 1 := le_trans h0 hx
@@ -174,7 +174,7 @@ def MarkInside (N : Nat) (sr : Rat) (m : Mark) : Prop :=
 instance (N : Nat) (sr : Rat) (m : Mark) : Decidable (MarkInside N sr m) := by unfold MarkInside; infer_instance
 
 /-- a window inside the waveform is just `[nearest sample, nearest sample + rounded length)` -/
-theorem window_inside (N : Nat) (sr : Rat) (m : Mark) (h : MarkInside N sr m) :
+theorem g4_window_inside (N : Nat) (sr : Rat) (m : Mark) (h : MarkInside N sr m) :
     window N sr m = (nearestIdx N (m.1 * sr), nearestIdx N (m.1 * sr) + (rhe (m.2 * sr)).toNat) := by
   obtain ⟨_, _, h3, h4⟩ := h
   unfold window sliceStop
@@ -184,27 +184,27 @@ theorem window_inside (N : Nat) (sr : Rat) (m : Mark) (h : MarkInside N sr m) :
 
 /-- **a segment-bound marker moves with the waveform**: its window on the delayed waveform
     (`M` samples longer, the segment `D ≤ M` samples later) is the old window moved by `D` -/
-theorem window_shift (N M D : Nat) (sr : Rat) (hsr : sr ≠ 0) (m : Mark) (h : MarkInside N sr m) (hD : D ≤ M) :
+theorem g4_window_shift (N M D : Nat) (sr : Rat) (hsr : sr ≠ 0) (m : Mark) (h : MarkInside N sr m) (hD : D ≤ M) :
     window (N + M) sr (m.1 + ((D : Int) : Rat) / sr, m.2) = ((window N sr m).1 + D, (window N sr m).2 + D) := by
-  rw [window_inside N sr m h]
+  rw [g4_window_inside N sr m h]
   obtain ⟨h1, h2, h3, h4⟩ := h
   have hx : (m.1 + ((D : Int) : Rat) / sr) * sr = m.1 * sr + (D : Rat) := by
     field_simp
     push_cast
     ring
   unfold window sliceStop
-  simp only [hx, nearestIdx_add N M D (m.1 * sr) h1 h2 hD]
+  simp only [hx, g4_nearestIdx_add N M D (m.1 * sr) h1 h2 hD]
   have : ¬ (((nearestIdx N (m.1 * sr) + D : Nat) : Int) + rhe (m.2 * sr) < 0) := by omega
   simp only [this, if_false, Prod.mk.injEq, true_and]
   omega
 
 /-- **an absolute-time marker keeps its absolute time**: on the longer delayed waveform its window
     is the very same index range -/
-theorem window_longer (N M : Nat) (sr : Rat) (m : Mark) (h : MarkInside N sr m) :
+theorem g4_window_longer (N M : Nat) (sr : Rat) (m : Mark) (h : MarkInside N sr m) :
     window (N + M) sr m = window N sr m := by
-  rw [window_inside N sr m h]
+  rw [g4_window_inside N sr m h]
   obtain ⟨h1, h2, h3, h4⟩ := h
-  have := nearestIdx_add N M 0 (m.1 * sr) h1 h2 (Nat.zero_le M)
+  have := g4_nearestIdx_add N M 0 (m.1 * sr) h1 h2 (Nat.zero_le M)
   simp only [Nat.cast_zero, add_zero] at this
   unfold window sliceStop
   simp only [this]
